@@ -1,12 +1,10 @@
 ----------------------------- MODULE MC_C15Ptr -----------------------------
 EXTENDS C15_Ptr
 SeqsUpTo(S, n) == UNION {[1..k -> S] : k \in 1..n}
-\* the domain on which the pinned code is right: no dimension-1 subsystem
-NoOnesQuick    == {d \in SeqsUpTo({2, 3}, 3) : IProd(d) <= 18}
-NoOnesThorough == {d \in SeqsUpTo({2, 3}, 4) : IProd(d) <= 36} \cup {<<4, 2>>, <<2, 4, 2>>, <<5, 3>>}
-\* the whole scope of the property
+\* the whole scope of the property: subsystems of dimension 1 and the empty keep included
 AllQuick    == {d \in SeqsUpTo({1, 2, 3}, 3) : IProd(d) <= 12}
-AllThorough == {d \in SeqsUpTo({1, 2, 3}, 4) : IProd(d) <= 27}
+AllThorough == {d \in SeqsUpTo({1, 2, 3}, 4) : IProd(d) <= 36} \cup {<<4, 2>>, <<2, 4, 2>>, <<5, 3>>, <<4, 1, 2>>}
+AllTiny     == {d \in SeqsUpTo({1, 2, 3}, 3) : IProd(d) <= 12}
 Seeds1 == {0}
 Seeds2 == {0, 1}
 =============================================================================
